@@ -6,6 +6,8 @@ from vmon.checks.c04 import build_case
 from vmon.gen import patterns, planted, replcase
 from vmon.oracle import geometry as G
 
+from vmon.oracle.util import clone
+
 PROPERTY = "C05"
 RULE = ("Planted structures (all cell classes incl. every tilt-sign combination, copies straddling 0-3 faces, all pose "
         "classes, 12 search-pattern classes incl. symmetric, collinear, two-atom and single-atom ones) and replacement "
@@ -33,7 +35,8 @@ def cases(tier, seed):
     out = []
     for j in range(n):
         out.append({"s": int(rng.integers(1 << 30)), "cell": planted.CELL_CLASSES[j % len(planted.CELL_CLASSES)], "pattern": patterns.CLASSES[(j // 2) % len(patterns.CLASSES)],
-                    "repl": REPLS[(j // 3) % len(REPLS)], "atol": [0.05, 0.2, 0.01][(j // 5) % 3], "replace_all": (j // 7) % 4 == 0, "joint_motion": j % 3 == 0})
+                    "repl": REPLS[(j // 3) % len(REPLS)], "atol": [0.05, 0.2, 0.01][(j // 5) % 3], "replace_all": (j // 7) % 4 == 0, "joint_motion": j % 3 == 0,
+                    "fraction": [1.0, 1.0, 0.5, 0.67, 0.34][(j // 4) % 5], "sample": ["reversed", "real", "first"][(j // 9) % 3]})
     return out
 
 
@@ -148,13 +151,20 @@ def same_multiset(cell, a, b, tol):
 def run_case(case, ctx):
     rng = np.random.default_rng(case["s"])
     st = ctx.stats
-    pat, rep, built, S = build_case(rng, case, ncopies=int(rng.integers(1, 4)))
+    pat, rep, built, S = build_case(rng, case, ncopies=int(rng.integers(1, 4)) if case.get("fraction", 1.0) >= 1.0 else int(rng.integers(2, 6)))
     atol = case["atol"]
     if len(rep["elements"]) == 0:
         return
     P, R = patterns.to_atoms(pat), replcase.rep_to_atoms(rep)
-    obs = replcase.observe_replace(S, P, R, case["s"], atol=atol, replace_all=case["replace_all"])
+    f = case.get("fraction", 1.0)
+    events.SCHEDULE["sample"] = case.get("sample", "real")
+    kw = {} if f >= 1.0 else {"replace_fraction": f}
+    obs = replcase.observe_replace(S, P, R, case["s"], atol=atol, replace_all=case["replace_all"], **kw)
     st.count("replace_calls")
+    if f < 1.0 and obs["selected"] is not None and len(obs["selected"]) >= 2:
+        st.count("partial_replacements_with_two_or_more_matches")
+        if list(obs["selected"]) != sorted(obs["selected"]):
+            st.count("partial_replacements_selected_out_of_found_order")
     if obs["found"] is None or obs["exception"] is not None or replcase.matches_overlap(obs["found"]):
         st.count("not_judged.%s" % ("raised" if obs["exception"] is not None else "overlap_or_no_search"))
         return
@@ -195,10 +205,11 @@ def run_case(case, ctx):
         if pinned:
             Rm = G.random_rotation(rng)
             t = rng.uniform(-4, 4, 3)
-            P2, R2 = P.copy(), R.copy()
+            P2, R2 = clone(P), clone(R)
             P2.positions = ppos.dot(Rm.T) + t
             R2.positions = rpos.dot(Rm.T) + t
-            obs2 = replcase.observe_replace(S, P2, R2, case["s"], atol=atol, replace_all=case["replace_all"])
+            events.SCHEDULE["sample"] = case.get("sample", "real")
+            obs2 = replcase.observe_replace(S, P2, R2, case["s"], atol=atol, replace_all=case["replace_all"], **kw)
             if obs2["exception"] is None and obs2["result"] is not None:
                 ok, why = same_multiset(cell, result_multiset(out, len(S)), result_multiset(obs2["result"], len(S)), 2 * bound(atol, ppos, rpos))
                 if not ok:
@@ -226,6 +237,8 @@ def requirements(stats, tier):
         need.append("not all cell / pattern classes observed")
     if stats.nseen("faces_crossed") < 4:
         need.append("copies straddling 0..3 faces not all observed")
+    if stats.get("partial_replacements_selected_out_of_found_order") < (10 if tier == "quick" else 400):
+        need.append("partial replacements whose selection order differs from the found order: %d" % stats.get("partial_replacements_selected_out_of_found_order"))
     if stats.get("joint_motion_relations_checked") < (40 if tier == "quick" else 6000):
         need.append("joint-motion relation checked only %d times" % stats.get("joint_motion_relations_checked"))
     return need
